@@ -14,9 +14,6 @@
 -/
 import StVerif.Lemmas.Split
 import StVerif.Lemmas.Utf8Split
-import StVerif.Lemmas.KernelBridge
-import StVerif.Lemmas.KernelLoopsCompare
-import StVerif.Lemmas.KernelLoopsFind
 
 namespace StVerif.Props.C09
 open StVerif StVerif.Split StVerif.Search StVerif.Lemmas.Split
@@ -315,31 +312,5 @@ example : tokenize [32, 97, 98, 32, 32, 99] Slice.whitespace = .ok [[97, 98], [9
 example : Split.replace .insensitive [97, 65, 97, 98] [97, 97] [120] = .ok [120, 97, 98] := by decide
 example : Fits .sensitive [97, 97, 97] [97, 97] [98] := ⟨by decide, by decide⟩
 example : pieceOk [44] [97, 0xFF] := ⟨by decide, by decide⟩
-
-/-! ### tie to the source (tools/gen_kernels.py) -/
-
-/-- `cl_fast_lower` / `cl_fast_upper` as translated from include/st_string_priv.h on every run are the model's case
-    folds on every `char` value (the byte seen as the signed `char` the C++ receives) -/
-theorem case_fold_is_model : ∀ b, b < 256 →
-    StVerif.Generated.Kernels.cl_fast_lower (KernelBridge.toChar b) = .ok (KernelBridge.toChar (StVerif.Search.lower b)) ∧
-    StVerif.Generated.Kernels.cl_fast_upper (KernelBridge.toChar b) = .ok (KernelBridge.toChar (StVerif.Search.upper b)) :=
-  fun b hb => ⟨KernelBridge.cl_fast_lower_eq b hb, KernelBridge.cl_fast_upper_eq b hb⟩
-
-/-- `compare_ci(left, right, fsize)` as translated from include/st_string_priv.h on every run (two source ranges, the
-    `while (fsize--)` loop with its unsigned post-decrement) is the model's `compareCi3` on the first `n` units of any two
-    ranges that hold at least `n` units: it never reads outside either range -/
-theorem translated_compare_ci_is_model (l r : List Nat) (hl : ∀ b ∈ l, b < 256) (hr : ∀ b ∈ r, b < 256) (n : Nat)
-    (hn : n ≤ l.length) (hn' : n ≤ r.length) (hn64 : n < 2 ^ 64) (fuel : Nat) (hf : n < fuel) :
-    StVerif.Generated.Kernels.compare_ci l r fuel 0 0 n = .ok (StVerif.Compare.compareCi3 (l.take n) (r.take n)) :=
-  KernelBridge.compare_ci_eq l r hl hr n hn hn' hn64 fuel hf
-
-/-- `find_ci(haystack, size, ch)` as translated from include/st_string_priv.h on every run (a pointer result is the index
-    found, or the null pointer) is the model's case-insensitive scan for one character: the first index whose folded byte
-    equals the folded needle; it never reads outside the haystack -/
-theorem translated_find_ci_is_model (mem : List Nat) (hb : ∀ b ∈ mem, b < 256) (c : Nat) (hc : c < 256) (fuel : Nat)
-    (hf : mem.length < fuel) :
-    StVerif.Generated.Kernels.find_ci mem fuel 0 mem.length (StVerif.Cxx.toChar c)
-      = .ok (StVerif.Search.scanChar .insensitive c mem 0) :=
-  KernelBridge.find_ci_eq mem hb c hc fuel hf
 
 end StVerif.Props.C09
